@@ -6,12 +6,17 @@ import SpecterModel.C15.Drv
 import SpecterModel.C16.Drv
 import SpecterModel.C21.Drv
 import SpecterModel.C24.Drv
+import SpecterModel.C25.Drv
 import SpecterModel.C27.Drv
 import SpecterModel.C28.Drv
+import SpecterModel.C29.Drv
 import SpecterModel.C31.Drv
 import SpecterModel.C34.Drv
 import SpecterModel.C35.Drv
+import SpecterModel.C39.Drv
 import SpecterModel.C43.Drv
+import SpecterModel.C45.Drv
+import SpecterModel.C46.Drv
 import SpecterModel.C51.Drv
 
 def main (args : List String) : IO UInt32 := do
@@ -24,11 +29,16 @@ def main (args : List String) : IO UInt32 := do
   | ["C16"] => do Specter.C16.main; return 0
   | ["C21"] => do Specter.C21.main; return 0
   | ["C24"] => do Specter.C24.main; return 0
+  | ["C25"] => do Specter.C25.main; return 0
   | ["C27"] => do Specter.C27.main; return 0
   | ["C28"] => do Specter.C28.main; return 0
+  | ["C29"] => do Specter.C29.main; return 0
   | ["C31"] => do Specter.C31.main; return 0
   | ["C34"] => do Specter.C34.main; return 0
   | ["C35"] => do Specter.C35.main; return 0
+  | ["C39"] => do Specter.C39.main; return 0
   | ["C43"] => do Specter.C43.main; return 0
+  | ["C45"] => do Specter.C45.main; return 0
+  | ["C46"] => do Specter.C46.main; return 0
   | ["C51"] => do Specter.C51.main; return 0
   | _ => do IO.eprintln "usage: modeld <property id>"; return 2
